@@ -59,9 +59,9 @@ fn c17_ends_and_totality() {
     let tg = b.tangent(t);
     if t <= 0.0 { assert!(e.to_bits() == p[0].to_bits() && f.to_bits() == p[0].to_bits()); }
     if t >= 1.0 { assert!(e.to_bits() == p[3].to_bits() && f.to_bits() == p[3].to_bits()); }
-    if t <= 0.0 && !p.iter().any(|v| v.is_nan() || v.is_infinite()) {
-        let t0 = b.tangent(0.0);
-        assert!(tg == t0 || (tg.is_nan() && t0.is_nan())); // numerically (t = -0.0 may flip the sign of a zero)
+    if t <= 0.0 && p.iter().all(|v| v.is_finite() && v.abs() <= 1e30) {
+        // clamped to t = 0: the derivative there is 3 (p1 - p0) (every other term is multiplied by zero)
+        assert!(tg == (p[1] - p[0]) * 3.0);
     }
     let sp = BezierSpline::new(&p[..]);
     let s = sp.eval(t);
